@@ -116,6 +116,62 @@ Fixpoint r2a_trace_from (W DW KW : Z) (s : r2a_st) (ins : list r2a_in) : list (l
   match ins with [] => [] | i :: rest => let s' := r2a_step DW s i in r2a_obs W KW s' :: r2a_trace_from W DW KW s' rest end.
 Definition r2a_trace (W DW KW : Z) (ins : list r2a_in) := r2a_trace_from W DW KW r2a_st0 ins.
 
+(* what the peer sees during a cycle, read off the gate-level wires *)
+Definition r2a_valid_now (s : r2a_st) : bool := r2a_tvalid s =? 1.
+Definition r2a_active_now (s : r2a_st) : bool := r2a_active s =? 1.
+
+(* the property's environment assumption along a schedule started in state s: in every cycle with ap_done (and no
+   ap_reset) VALID is low and no load pulse is given  (Spec.r2a_done_ok, with the VALID of the gate-level block) *)
+Fixpoint r2a_env_ok (DW : Z) (s : r2a_st) (ins : list r2a_in) : Prop :=
+  match ins with
+  | [] => True
+  | i :: rest => r2a_done_ok (r2a_valid_now s) i /\ r2a_env_ok DW (r2a_step DW s i) rest
+  end.
+
+(* no load pulse while a beat is pending, and no reset: the stricter environment of the exactly-once clause *)
+Fixpoint r2a_env_strict (DW : Z) (s : r2a_st) (ins : list r2a_in) : Prop :=
+  match ins with
+  | [] => True
+  | i :: rest => b_reset i = false /\ (r2a_valid_now s = true -> b_load i = false) /\ r2a_env_strict DW (r2a_step DW s i) rest
+  end.
+
+(* (accepted beats, effective load pulses) along a schedule started in state s, counted on the gate-level wires *)
+Fixpoint r2a_counts (DW : Z) (s : r2a_st) (ins : list r2a_in) : Z * Z :=
+  match ins with
+  | [] => (0, 0)
+  | i :: rest =>
+      let '(acc, lds) := r2a_counts DW (r2a_step DW s i) rest in
+      (acc + b2z (r2a_accepted (r2a_valid_now s) i), lds + b2z (r2a_loadp (r2a_active_now s) i))
+  end.
+
+(* ------------------------------------------------------------------ control FSMs (generated clock() + the wires they prepare) *)
+Definition vk_state (st : VitisKernelFSM_state) : Z := VitisKernelFSM_s_state st.
+Definition vk_done (o : VitisKernelFSM_out) : option Z := VitisKernelFSM_o_ap_done o.
+Definition vk_step (st : VitisKernelFSM_state) (start load sent : bool) : VitisKernelFSM_state * VitisKernelFSM_out :=
+  VitisKernelFSM_clock 1 1 1 st (b2z start) (b2z load) (b2z sent).
+(* a prepared value replaces the wire's value at the edge; no prepare = the wire keeps its value *)
+Definition upd (old : Z) (o : option Z) : Z := match o with Some v => v | None => old end.
+(* FSM state + the ap_done / ap_idle / ap_ready wires *)
+Record vk_sys := { vs_st : VitisKernelFSM_state; vs_done : Z; vs_idle : Z; vs_ready : Z }.
+Definition vk_sys0 := {| vs_st := {| VitisKernelFSM_s_state := 0 |}; vs_done := 0; vs_idle := 0; vs_ready := 0 |}.
+Definition vk_sys_step (s : vk_sys) (i : bool * bool * bool) : vk_sys :=
+  let '(start, load, sent) := i in
+  let '(st', o) := vk_step (vs_st s) start load sent in
+  {| vs_st := st'; vs_done := upd (vs_done s) (VitisKernelFSM_o_ap_done o);
+     vs_idle := upd (vs_idle s) (VitisKernelFSM_o_ap_idle o); vs_ready := upd (vs_ready s) (VitisKernelFSM_o_ap_ready o) |}.
+Definition vk_sys_run (ins : list (bool * bool * bool)) : vk_sys := fold_left vk_sys_step ins vk_sys0.
+
+(* Axi2ClkFSM + its three output wires (clk_count is cw bits wide and is read back by the FSM) *)
+Record a2c_sys := { cs_st : Axi2ClkFSM_state; cs_count : Z; cs_clk : Z; cs_load : Z }.
+Definition a2c_idle (count : Z) : a2c_sys :=
+  {| cs_st := {| Axi2ClkFSM_s_state := 0; Axi2ClkFSM_s_target := 0 |}; cs_count := count; cs_clk := 0; cs_load := 0 |}.
+Definition a2c_step (cw : Z) (s : a2c_sys) (i : bool * Z) : a2c_sys :=
+  let '(st', o) := Axi2ClkFSM_clock cw 1 1 (cs_st s) (b2z (fst i)) (snd i) (cs_count s) in
+  {| cs_st := st'; cs_count := upd (cs_count s) (Axi2ClkFSM_o_clk_count o);
+     cs_clk := upd (cs_clk s) (Axi2ClkFSM_o_clk_out o); cs_load := upd (cs_load s) (Axi2ClkFSM_o_load_outs o) |}.
+Fixpoint a2c_trace (cw : Z) (s : a2c_sys) (ins : list (bool * Z)) : list (Z * Z) :=
+  match ins with [] => [] | i :: rest => let s' := a2c_step cw s i in (cs_clk s', cs_load s') :: a2c_trace cw s' rest end.
+
 (* ------------------------------------------------------------------ helpers for the correspondence case files *)
 Definition zb (z : Z) : bool := negb (z =? 0).
 (* (start, reset, done, tvalid, tdata) *)
@@ -158,3 +214,23 @@ Fixpoint r2a_ref_trace_from (W DW : Z) (s : r2a_ref) (ins : list r2a_in) : list 
 (* the history reading evaluated after every prefix of the schedule *)
 Fixpoint a2r_hist_trace (W : Z) (pre : list a2r_in) (ins : list a2r_in) : list (list Z) :=
   match ins with [] => [] | i :: rest => a2r_expected W (pre ++ [i]) :: a2r_hist_trace W (pre ++ [i]) rest end.
+
+(* one-transition checks from a snapshot of the real block (exhaustive state x input sweep) *)
+Definition eq_list (a b : list Z) : bool := forallb (fun p => fst p =? snd p) (combine a b) && (length a =? length b)%nat.
+Fixpoint bad_idx {A} (f : A -> bool) (k : nat) (l : list A) : list nat :=
+  match l with [] => [] | x :: r => if f x then bad_idx f (S k) r else k :: bad_idx f (S k) r end.
+(* expected = snapshot after the edge ++ observed outputs *)
+Definition a2r_trans_ok (W : Z) (t : (Z * Z * Z * Z * Z * Z) * (Z * Z * Z * Z * Z) * list Z) : bool :=
+  let '(snap, inp, exp) := t in
+  let s' := a2r_step W (a2r_of_snapshot snap) (mkA inp) in eq_list (a2r_snapshot s' ++ a2r_obs s') exp.
+Definition a2r_ref_trans_ok (W : Z) (t : (Z * Z * Z * Z * Z * Z) * (Z * Z * Z * Z * Z) * list Z) : bool :=
+  let '(snap, inp, exp) := t in let '(_, _, _, q, l, a) := snap in
+  let s' := a2r_ref_step W {| ra_q := q; ra_loaded := zb l; ra_active := zb a |} (mkA inp) in
+  eq_list (a2r_ref_obs s') (skipn 6 exp).
+Definition r2a_trans_ok (W DW KW : Z) (t : (Z * Z * Z * Z * Z * Z * Z * Z) * (Z * Z * Z * Z * Z * Z) * list Z) : bool :=
+  let '(snap, inp, exp) := t in
+  let s' := r2a_step DW (r2a_of_snapshot snap) (mkB inp) in eq_list (r2a_snapshot s' ++ r2a_obs W KW s') exp.
+Definition r2a_ref_trans_ok (W DW : Z) (t : (Z * Z * Z * Z * Z * Z * Z * Z) * (Z * Z * Z * Z * Z * Z) * list Z) : bool :=
+  let '(snap, inp, exp) := t in let '(_, _, _, _, tv, td, se, ac) := snap in
+  let s' := r2a_ref_step DW {| rb_tvalid := zb tv; rb_tdata := td; rb_sent := zb se; rb_active := zb ac |} (mkB inp) in
+  eq_list (r2a_ref_obs W s') (skipn 8 exp).
